@@ -323,6 +323,45 @@ def prove_dispatch_total(src_root, fam, meth, ex: Explorer):
     ex.run(path, f'dispatch {fam}.{meth}')
 
 
+def scan_decode_state(src_root, ex: Explorer):
+    """Frame condition behind "dropped without affecting the frames after it": the decoders write nothing that outlives the call.  Scan of
+    protocol/*.py: no function assigns to an attribute of `cls` / of a class, declares `global`, or calls a mutating method / stores into a
+    subscript of a module-level or class-level name.  A (correct) cache is state too: the scan cannot tell, so a hit is NOT a violation
+    by itself - the check has no verdict (UNDECIDED) and the native battery, which decodes frame sequences, decides."""
+    import ast
+    src, _ = source(src_root)
+    MUT = {'add', 'append', 'extend', 'update', 'setdefault', 'clear', 'pop', 'popitem', 'remove', 'discard', 'insert', 'sort'}
+    hits = []
+    for modname in ('protocol.primitives', 'protocol.messages'):
+        mod = src.module(modname)
+        toplevel = {t.id for st in mod.tree.body if isinstance(st, (ast.Assign, ast.AnnAssign))
+                    for t in (st.targets if isinstance(st, ast.Assign) else [st.target]) if isinstance(t, ast.Name)}
+        for fn in [n for n in ast.walk(mod.tree) if isinstance(n, (ast.FunctionDef, ast.AsyncFunctionDef))]:
+            local = {a.arg for a in fn.args.args + fn.args.kwonlyargs} | {t.id for n in ast.walk(fn) if isinstance(n, ast.Assign) for t in n.targets if isinstance(t, ast.Name)}
+            for n in ast.walk(fn):
+                if isinstance(n, ast.Global):
+                    hits.append(f'{modname}:{fn.name}: global {n.names}')
+                if isinstance(n, (ast.Assign, ast.AugAssign, ast.AnnAssign)):
+                    tgts = n.targets if isinstance(n, ast.Assign) else [n.target]
+                    val = getattr(n, 'value', None)
+                    mutable = isinstance(val, (ast.Dict, ast.List, ast.Set, ast.DictComp, ast.ListComp, ast.SetComp)) or \
+                        (isinstance(val, ast.Call) and ast.unparse(val.func) in ('dict', 'list', 'set', 'bytearray', 'defaultdict', 'collections.defaultdict'))
+                    for t in tgts:
+                        # a class attribute that is given a MUTABLE container (scratch space shared by all calls); the memo of the immutable
+                        # field tuple of a dataclass (`cls._CACHED_FIELDS = fields(cls)`) is not state of the decoding
+                        if mutable and isinstance(t, ast.Attribute) and isinstance(t.value, ast.Name) and t.value.id == 'cls':
+                            hits.append(f'{modname}:{fn.name}: writes cls.{t.attr}')
+                        if isinstance(t, ast.Subscript) and isinstance(t.value, ast.Name) and t.value.id in toplevel and t.value.id not in local:
+                            hits.append(f'{modname}:{fn.name}: stores into module-level {t.value.id}[...]')
+                if isinstance(n, ast.Call) and isinstance(n.func, ast.Attribute) and n.func.attr in MUT and isinstance(n.func.value, ast.Name) \
+                        and n.func.value.id in toplevel and n.func.value.id not in local:
+                    hits.append(f'{modname}:{fn.name}: {n.func.value.id}.{n.func.attr}(...) on a module-level name')
+    ctx = Ctx(ex, [])
+    if hits:
+        raise Unsupported('decoders keep state between calls: ' + '; '.join(hits[:4]))
+    ctx.prove('C02.decode.keeps-no-state', True)
+
+
 def prove_dispatch_history_free(src_root, ex: Explorer):
     """What a frame decodes to depends on the frame, not on what arrived before - on ANY connection: a hostile frame on one connection
     must not change how later frames (of any family) are decoded.  Message ids are only unique per family and kind, so the sharpest
@@ -518,6 +557,24 @@ def prove_framing(src_root, ex: Explorer):
         it.hooks[f'{OBF}:decode'] = c_decode
         conn.attrs['_reader'] = Stub('reader', readexactly=Recorder('readexactly', fn=st.readexactly, is_async=True))
         tag = 'obfuscated' if obf else 'plain'
+        pushes = []
+        it.hooks[f'{CONN}:DataConnection._increase_read_timeout'] = lambda it2, f, a, k: pushes.append(list(a[1:]) + list(k.values()))
+
+        def mentions_L(v):
+            v = unbox(v)
+            t = getattr(v, 't', None)
+            if t is None or not z3.is_expr(t):
+                return False
+            seen, todo = set(), [t]
+            while todo:
+                x = todo.pop()
+                if x.get_id() in seen:
+                    continue
+                seen.add(x.get_id())
+                if z3.is_const(x) and x.decl().name() == 'L':
+                    return True
+                todo.extend(x.children())
+            return False
         try:
             r = run(it, it.getattr(conn, '_read_message'))
         except PyRaise as pr:
@@ -535,6 +592,10 @@ def prove_framing(src_root, ex: Explorer):
         ctx.prove(f'C02._read_message.body-length[{tag}]', st.reads[1].length() == L if len(st.reads) > 1 else False,
                   f'second read has length {st.reads[1].length() if len(st.reads) > 1 else None}, header announces L')
         ctx.prove(f'C02._read_message.consumed[{tag}]', st.pos == hs + L)
+        # the deadline of the read in progress may be pushed back by what ARRIVED, never by what the header ANNOUNCES: a length-lying frame
+        # (announce 4 GiB, send nothing) would otherwise keep the reader waiting - silently, with the connection open
+        ctx.prove(f'C02._read_message.deadline-not-from-header[{tag}]', not any(mentions_L(v) for p in pushes for v in p),
+                  f'the read deadline is pushed back by an amount computed from the announced length: {pushes}')
     ex.run(path, '_read_message')
 
 
@@ -926,7 +987,7 @@ def items(src_root, tier):
     out += [('array', t) for t in elem_types()]
     out += [('msg', q) for q in sorted(LAYOUT['messages'])]
     out += [('dispatch', d) for d in DISPATCHERS]
-    out += [('dispatch-history', None)]
+    out += [('dispatch-history', None), ('decode-state', None)]
     out += [('obf', None), ('conn', 'decode'), ('conn', 'framing'), ('conn', 'read'), ('conn', 'loop'),
             ('conn', 'accepted'), ('conn', 'receive-object'), ('handlers', None)]
     return out
@@ -950,6 +1011,8 @@ def run_item(src_root, item, tier):
             prove_dispatch_total(src_root, arg[0], arg[1], ex)
         elif kind == 'dispatch-history':
             prove_dispatch_history_free(src_root, ex)
+        elif kind == 'decode-state':
+            scan_decode_state(src_root, ex)
         elif kind == 'obf':
             prove_obf_total(src_root, ex)
         elif kind == 'conn':
